@@ -293,6 +293,71 @@ func (o *Obligation) SMT(withModel bool, forCVC5 bool) string {
 			strAx = append(strAx, Forall([]*Term{a, b}, Eq(StrLen(StrCat(a, b)), Add(StrLen(a), StrLen(b))), []*Term{StrCat(a, b)}))
 		}
 	}
+	// codec: decode is the inverse of encode (per leaf); string concatenation has a left inverse
+	{
+		var fnames []string
+		for n := range d.funs {
+			fnames = append(fnames, n)
+		}
+		sort.Strings(fnames)
+		for _, n := range fnames {
+			sig := d.funs[n]
+			if strings.HasPrefix(n, "enc:") || strings.HasPrefix(n, "encsnap:") {
+				var vars []*Term
+				for i, srt := range sig[:len(sig)-1] {
+					vars = append(vars, Bound(fmt.Sprintf("e%d", i), srt))
+				}
+				app := UF(n, sig[:len(sig)-1], SStr, vars...)
+				for i, v := range vars {
+					dn := fmt.Sprintf("dec%d:%s", i, n)
+					d.funs[dn] = []string{SStr, v.Sort}
+					strAx = append(strAx, Forall(vars, Eq(UF(dn, []string{SStr}, v.Sort, app), v), []*Term{app}))
+				}
+			}
+		}
+		// two literals neither of which is a prefix of the other can never start the same string
+		{
+			lits := map[string]bool{}
+			var walkLits func(t *Term)
+			walkLits = func(t *Term) {
+				if t.K == TApp && t.UFun && t.Op == "strcat" && t.Args[0].K == TConst && strings.HasPrefix(t.Args[0].Op, "str:") {
+					lits[t.Args[0].Op] = true
+				}
+				for _, a := range t.Args {
+					walkLits(a)
+				}
+				for _, p := range t.Pats {
+					for _, pt := range p {
+						walkLits(pt)
+					}
+				}
+			}
+			for _, t := range all {
+				walkLits(t)
+			}
+			var ls []string
+			for l := range lits {
+				ls = append(ls, l)
+			}
+			sort.Strings(ls)
+			for i := 0; i < len(ls); i++ {
+				for j := i + 1; j < len(ls); j++ {
+					x1, x2 := strings.TrimPrefix(ls[i], "str:"), strings.TrimPrefix(ls[j], "str:")
+					if strings.HasPrefix(x1, x2) || strings.HasPrefix(x2, x1) {
+						continue
+					}
+					a, b := Bound("a", SStr), Bound("b", SStr)
+					strAx = append(strAx, Forall([]*Term{a, b}, Neq(StrCat(Const(ls[i], SStr), a), StrCat(Const(ls[j], SStr), b)),
+						[]*Term{StrCat(Const(ls[i], SStr), a), StrCat(Const(ls[j], SStr), b)}))
+				}
+			}
+		}
+		if _, ok := d.funs["strcat"]; ok {
+			a, b := Bound("a", SStr), Bound("b", SStr)
+			d.funs["strtail"] = []string{SStr, SStr, SStr}
+			strAx = append(strAx, Forall([]*Term{a, b}, Eq(UF("strtail", []string{SStr, SStr}, SStr, a, StrCat(a, b)), b), []*Term{StrCat(a, b)}))
+		}
+	}
 	if _, ok := d.funs["idx"]; ok {
 		a, b := Bound("o", SInt), Bound("i", SInt)
 		ix := UF("idx", []string{SInt, SInt}, SInt, a, b)
@@ -320,7 +385,7 @@ func (o *Obligation) SMT(withModel bool, forCVC5 bool) string {
 		fmt.Fprintf(&sb, "(assert %s)\n", a)
 	}
 	for _, a := range strAx {
-		if o.noQuant && a.K == TQuant && !strings.Contains(a.String(), "(idx ") {
+		if o.noQuant && a.K == TQuant && !strings.Contains(a.String(), "(idx ") && !strings.Contains(a.String(), "dec") {
 			continue
 		}
 		fmt.Fprintf(&sb, "(assert %s)\n", a)
